@@ -34,7 +34,14 @@ func verifStoreHistory(st CacheStore) {
 		gh := g[k+"|"+c]
 		switch verifChoose(5) {
 		case 0: // Flight
-			v, e := st.Flight(k, c, time.Minute, now)
+			at := now
+			if gh.state == 1 && verifChoose(2) == 1 {
+				// the reply to the request in flight is slower than the client-side TTL it was issued
+				// with: a reader arriving after that deadline still joins the flight
+				at = now.Add(2 * time.Minute)
+				verifReach("late")
+			}
+			v, e := st.Flight(k, c, time.Minute, at)
 			if closed {
 				verifAssert(v.typ == 0, "a closed store never answers with a hit")
 				break
